@@ -204,16 +204,61 @@ func trimStack(st string) string {
 // only for properties that speak about termination.
 func WithWatchdog(d time.Duration, what string, f func() *Violation) *Violation {
 	done := make(chan *Violation, 1)
-	go func() { done <- Guard(f) }()
-	select {
-	case v := <-done:
-		return v
-	case <-time.After(d):
+	gid := make(chan string, 1)
+	go func() {
+		var b [64]byte
+		h := string(b[:runtime.Stack(b[:], false)]) // "goroutine N [running]:..."
+		if i := strings.Index(h, " ["); i > 0 {
+			h = h[:i]
+		}
+		gid <- h
+		done <- Guard(f)
+	}()
+	worker := <-gid
+	start := time.Now()
+	limit := d
+	for {
+		select {
+		case v := <-done:
+			return v
+		case <-time.After(time.Until(start.Add(limit))):
+		}
 		buf := make([]byte, 1<<20)
 		n := runtime.Stack(buf, true)
 		dump := string(buf[:n])
-		return &Violation{Sig: "hang|" + what + "|" + hangFrame(dump), Msg: fmt.Sprintf("operation %q did not return within %v\n%s", what, d, trimStack(dump))}
+		// A goroutine that is still computing (running / runnable) on a loaded machine is slow, not
+		// stuck: it gets up to ten times the allowance before it counts as an endless loop (false
+		// alarms seen in a thorough run at load 100: 30 s exceeded by parses that take 2 s).  One that
+		// is blocked (lock, channel, I/O) is reported at once, as before.
+		if limit < 10*d && workerComputing(dump, worker) {
+			limit += d
+			continue
+		}
+		return &Violation{Sig: "hang|" + what + "|" + hangFrame(dump), Msg: fmt.Sprintf("operation %q did not return within %v\n%s", what, time.Since(start).Round(time.Second), trimStack(dump))}
 	}
+}
+
+// workerComputing: the goroutine that runs the guarded function (worker = "goroutine N") is not
+// parked on a lock, channel, timer or I/O.
+func workerComputing(dump, worker string) bool {
+	for _, g := range strings.Split(dump, "\n\n") {
+		if !strings.HasPrefix(g, worker+" [") {
+			continue
+		}
+		head := g
+		if i := strings.IndexByte(g, '\n'); i > 0 {
+			head = g[:i]
+		}
+		// blocked = parked for a reason that computing does not have; everything else (running,
+		// runnable, preempted, copystack, syscall, GC assist ...) is a goroutine that still works
+		for _, w := range []string{"[chan receive", "[chan send", "[select", "[semacquire", "[sync.", "[IO wait", "[sleep", "[finalizer wait", "[waiting"} {
+			if strings.Contains(head, w) {
+				return false
+			}
+		}
+		return true
+	}
+	return false
 }
 
 // hangFrame finds the innermost Havoc frame of any goroutine that is not parked
